@@ -11,6 +11,7 @@ interpretation* `Spec.Mem.interpret` on the independently transcribed layout
 row (`spec interp`), the declared map with the transcribed rows (`spec row`,
 `spec bank`), round trips, overlap and lockability are evaluated directly on
 the real classes.  Decimals are compared as normalised (mantissa, exponent)."""
+from common import exc_name  # noqa: E402
 from decimal import Decimal
 
 from common import Model
@@ -79,7 +80,7 @@ def run(fn, conv=canon):
     try:
         return conv(fn())
     except Exception as e:  # noqa
-        n = type(e).__name__
+        n = exc_name(e)
         return "err " + EXC_MAP.get(n, n)
 
 
@@ -543,7 +544,7 @@ def outcome(thunk):
     try:
         return "ok", thunk()
     except Exception as e:  # noqa
-        return "err", type(e).__name__
+        return "err", exc_name(e)
 
 
 def correspond(ctx, corr):
